@@ -1,6 +1,6 @@
 CONSTANTS
   Server = {1, 2, 3}
-  Campaigners = {1, 2, 3}
+  Campaigners = {1, 2}
   MaxTerm = 1
   MaxProposals = 0
   MaxCrashes = 0
@@ -18,9 +18,9 @@ CONSTANTS
   W_NoPersistVote = FALSE
   W_AppendAlwaysTruncates = FALSE
   W_HeartbeatCommitUnbounded = FALSE
-  W_QuorumMinusOne = TRUE
-  PreVote = FALSE
-  W_PreVoteRespCountsAsVote = FALSE
+  W_QuorumMinusOne = FALSE
+  PreVote = TRUE
+  W_PreVoteRespCountsAsVote = TRUE
 INIT Init
 NEXT Next
 CONSTRAINT NetBound
